@@ -226,7 +226,7 @@ def check_c06(case):
     spe, upe = geometry(case)
     full = take(iter(s))
     ann = list(main.announced)
-    for k in range(1, 4):
+    for k in range(1, 8):
         stopped = ((case.get("epochs") is not None and k >= case["epochs"]) or
                    (case.get("updates") is not None and k * upe >= case["updates"]) or
                    (case.get("samples") is not None and k * spe >= case["samples"]))
@@ -279,7 +279,7 @@ def check_case(case):
     N, B, DL, D = case["N"], case["B"], case["drop_last"], case.get("dlb") or case["B"]
     spe = N // D * D if DL else N
     upe = -(-spe // B)
-    for k in range(1, 4):
+    for k in range(1, 8):
         stopped = ((case.get("epochs") is not None and k >= case["epochs"]) or
                    (case.get("updates") is not None and k * upe >= case["updates"]) or
                    (case.get("samples") is not None and k * spe >= case["samples"]))
@@ -337,7 +337,7 @@ def neighbourhood(seed_case=None, limit=4000, rng=None):
             for DL in (True, False):
                 dlbs = [None] + ([m * B for m in (2, 3) if m * B <= N] if DL else [])
                 for dlb in dlbs:
-                    for kind, vals in (("epochs", (0, 1, 3)), ("updates", (1, 4, 7)), ("samples", (1, 5, 11))):
+                    for kind, vals in (("epochs", (0, 1, 3) + ((7,) if (N, B) in ((10, 4), (5, 2), (7, 3)) else ())), ("updates", (1, 4, 7)), ("samples", (1, 5, 11))):
                         for v in vals:
                             for cf in cfg_opts:
                                 cases.append({"N": N, "B": B, "drop_last": DL, "dlb": dlb, kind: v, "configs": cf})
